@@ -158,6 +158,10 @@ def r3(ctx: Ctx) -> None:
         ctx.check(ok, f, sts[0].node if sts else f.node, f"{nm} queue is rebuilt from popped + remaining orders before the fills", "[*popped, *queue]", found)
     # and the fills come after the rebuild
     idx_fill = w.main.events.index(w.fill_call) if w.fill_call in w.main.events else -1
+    if idx_fill < 0:  # the fills are made in a for-loop over the pending list
+        for i_, e_ in enumerate(w.main.events):
+            if e_.kind == "loop" and any(w.fill_call in bp.events for bp in e_.paths):
+                idx_fill = i_
     idx_st = max([w.main.events.index(e) for e in after if e.kind == "store" and e.attr == "priority_queue"] or [-1])
     ctx.check(0 <= idx_st < idx_fill, f, w.fill_call.node, "books are restored before fills are executed", "rebuild precedes fills", f"rebuild@{idx_st} fills@{idx_fill}")
 
